@@ -22,7 +22,7 @@ package tools
 // MkdirAll only creates directories.
 //@ func MkdirAll
 //@   assumed
-//@   props C20 C13
+//@   props C20 C13 C02 C09
 //@   modifies fresh
 
 // C02: HashingReader.  Whatever Read hands to its caller without an error is
@@ -70,6 +70,37 @@ package tools
 // source's content; on failure the destination is untouched.
 //@ func RenameFileCopyPermissions
 //@   props C02 C09
+//@   requires @C09 isobj(destfile) && fexists(srcfile) ==> hexsha(fdata(srcfile)) == oidof(destfile)
 //@   modifies ghost fexists[srcfile], ghost fexists[destfile], ghost fdata[destfile]
 //@   ensures result == nil ==> fexists(destfile) && fdata(destfile) == old(fdata(srcfile))
 //@   ensures result != nil ==> fexists(destfile) == old(fexists(destfile)) && fdata(destfile) == old(fdata(destfile))
+
+// C09.  A killed process leaves whatever its file-system calls so far produced,
+// so each call on its own has to keep the object store valid: a path in the
+// store only ever comes into being by an atomic rename or link of complete,
+// hash-valid content, and files are created, truncated and written only in
+// the auxiliary areas (tmp, incomplete, bad).  The rules themselves are the
+// preconditions tagged C09 on os.Rename, os.Link, os.Create, os.CreateTemp,
+// os.OpenFile, os.WriteFile and (*os.File).Truncate in /verif/spec/os.spec;
+// the contracts below carry them up through the helpers.
+//@ func RobustRename
+//@   props C02 C09 C01
+//@   requires @C09 isobj(newpath) && fexists(oldpath) ==> hexsha(fdata(oldpath)) == oidof(newpath)
+//@   modifies ghost fexists[oldpath], ghost fexists[newpath], ghost fdata[newpath]
+//@   ensures result == nil ==> old(fexists(oldpath)) && !fexists(oldpath) && fexists(newpath) && fdata(newpath) == old(fdata(oldpath))
+//@   ensures result != nil ==> fexists(oldpath) == old(fexists(oldpath)) && fexists(newpath) == old(fexists(newpath)) && fdata(newpath) == old(fdata(newpath))
+
+// TempFile creates the file directly in the directory it is given (and in no
+// other), empty, and removes it again if it cannot set its permissions.
+//@ func TempFile
+//@   props C01 C02 C08 C09
+//@   requires @C09 !isobjdir(dir)
+//@   requires @inv cfg != nil
+//@   modifies fresh, ghost fpath[result0], ghost rrest[iface(result0)], ghost fexists[q | path_dir(q) == dir && !old(fexists(q))], ghost fdata[q | path_dir(q) == dir && !old(fexists(q))]
+//@   ensures result1 == nil ==> result0 != nil && isfresh(result0) && fexists(fpath(result0)) && fdata(fpath(result0)) == "" && rrest(iface(result0)) == "" && path_dir(fpath(result0)) == dir && forall_v(q, q == fpath(result0) ==> !old(fexists(q)))
+//@   ensures result1 != nil ==> result0 == nil
+//@   ensures !err_cleanptr(result1)
+//@ iface (repositoryPermissionFetcher).RepositoryPermissions
+//@   assumed
+//@   props C01 C02 C08 C09
+//@   noeffect
